@@ -21,5 +21,6 @@ def run(F, rep):
     rep.run(lemmas.slice_exact_lemmas, F, rep, "C15.1", quick=(rep.tier != "thorough"))
     rep.run(lemmas.slice_getkmer_lemmas, F, rep, "C15.1", quick=(rep.tier != "thorough"))
     rep.run(dt_seq.hamming_dist_table, F, rep, "C15.2")
+    rep.run(lemmas.slice_hamming_lemmas, F, rep, "C15.2")
     # base iteration by reference (`for b in &x`): exact, whatever iterator type implements it
     rep.run(lemmas.container_iter_lemmas, F, rep, "C15.6", conts=("slice",), quick=(rep.tier != "thorough"))
